@@ -24,6 +24,9 @@ def harnesses(tier):
             scenario_harness("nested1-parent-timeout-shutdown", Profile(
                 templates=("N11",), timeout="always", timeout_scope="top", lat="free", sd="free", sdt="free",
                 perm="id", crit_job=False, edges="none"), o, required_notes=("c11_nested_cancelled",)),
+            scenario_harness("nested-success-with-forever-job-then-parent-timeout", Profile(
+                templates=("N12",), forever="free", timeout="always", timeout_scope="top", sd="free",
+                perm="id", crit_job=False, edges="none"), o, required_notes=("c11_nested_cancelled",)),
             scenario_harness("nested-sibling-critical", Profile(
                 templates=("N12",), raises="free", crit_job="free", lat="free", perm="id", edges="none",
                 crit_sched="free"), o, required_notes=("c11_nested_cancelled",)),
